@@ -211,6 +211,9 @@ def execute_run(
             if post.tainted() and stop_on_taint:
                 rr.stopped = "taint"
                 break
+            if post.too_big:
+                rr.stopped = "size"
+                break
             pre = post
     finally:
         signal.signal(signal.SIGALRM, old)
